@@ -250,4 +250,23 @@ PROPS = {
         "assumptions": ["loopback UDP delivers datagrams up to 65507 bytes unmodified",
                         "the fake resolver.Resolver stands for the resolver layer (DoH/DNS53 are covered by C03/C06/C07)"],
     },
+    "C20": {
+        "proof_files": ["Proofs/RouterFacts.v"],
+        "runs": [{"engine": "router", "args": [], "n_quick": 1600, "n_thorough": 80000, "netns": True, "mountns": True}],
+        "trivial_tags": [r"^generic/"],
+        "rule": "the real router.New() (firewalla: firewalla.New()) / Configure / Setup / Restore of all eight firmware packages run in a chroot "
+                "jail where uci, nvram, uname, ubus, service, startservice, kill, systemctl, /etc/init.d/dnsmasq, /etc/rc.network are a multi-call "
+                "shim over fake stores; the shim's `restart dnsmasq` snapshots what dnsmasq would load. Pre-states: uci port absent/53/other, "
+                "forwarder lists, DHCP option lists with/without 6,<ip> (and look-alikes), missing router address; nvram variables absent/empty/"
+                "single/multi-line; postconf absent/user script (CRLF, blank lines, no final newline, own pc_append lines)/with an old NextDNS head; "
+                "stale drop-ins; synology DHCP off; UDM content filtering on. Histories: 1-3 daemon lifetimes, each report on/off x cache "
+                "'0'/''/'10MB'/'512kB', ending in Restore or in a crash (no Restore). After every call the managed file, the stores and the "
+                "snapshot are compared with the extracted model; the extracted c20_setup_ok / c20_not_pointing / c20_restored are evaluated "
+                "on the implementation's own snapshots. non-trivial = not the generic firmware",
+        "assumptions": ["fake uci/nvram/service tools: uci add_list appends, del_list removes equal values and the option when empty, staged "
+                        "changes are loaded by dnsmasq only after commit; nvram unset takes the literal name, get prints nothing for a missing variable",
+                        "localhost resolves to 127.0.0.1 (ubios and firewalla listen on localhost:5342 and forward to 127.0.0.1#5342)",
+                        "synology with DHCP off and the generic firmware run no dnsmasq: nothing is asserted about it there",
+                        "run.go's OnStarted/OnStopped wiring is not executed; the engine calls Configure, Setup, Restore in that order"],
+    },
 }
